@@ -332,7 +332,7 @@ def parse_state(body: str) -> dict:
     return st
 
 
-_SIM = re.compile(r"\\\* <(\w+)[^>]*>\nSTATE_(\d+) ==\s*\n(.*?)\n\n", re.S)
+_SIM = re.compile(r"\\\* <(\w+)[^\n]*\nSTATE_(\d+) ==[ \t]*\n(.*?)\n\n", re.S)
 
 
 def parse_sim_file(path: Path) -> list[tuple[str, dict]]:
